@@ -684,6 +684,9 @@ func (w *world) startSync(pq string, sc int, comps []int, plat int, h, t int, re
 		if code != 0 {
 			resp.Status = &status_pb.Status{Code: int32(code), Message: "worker reported failure"}
 		}
+		if exit < 0 {
+			resp.Result = nil // a worker that is not bb_worker may report a response without an action result
+		}
 		req.CurrentState = &remoteworker.CurrentState{WorkerState: &remoteworker.CurrentState_Executing_{Executing: &remoteworker.CurrentState_Executing{
 			ActionDigest:   w.digestProto(d),
 			ExecutionState: &remoteworker.CurrentState_Executing_Completed{Completed: resp},
